@@ -817,13 +817,18 @@ func (h *handle) writeFrom(p []byte) (int, error) {
 	if h.appendMode {
 		h.pos = len(h.n.Data)
 	}
-	for i := range p {
-		if h.pos < len(h.n.Data) {
-			h.n.Data[h.pos] = p[i]
-		} else {
-			h.n.Data = append(h.n.Data, p[i])
+	if h.pos >= len(h.n.Data) {
+		h.n.Data = append(h.n.Data[:h.pos], p...)
+		h.pos = len(h.n.Data)
+	} else {
+		for i := range p {
+			if h.pos < len(h.n.Data) {
+				h.n.Data[h.pos] = p[i]
+			} else {
+				h.n.Data = append(h.n.Data, p[i])
+			}
+			h.pos++
 		}
-		h.pos++
 	}
 	if len(p) > 0 {
 		h.n.Mtime = now()
